@@ -1,7 +1,7 @@
 #!/usr/bin/env python3
 """Write seeded/RESULTS.md from the kept seeded changes and the matrix results.
 
-usage: tools/mkresults.py <full-matrix-dir> <own-check-matrix-dir> <commit>
+usage: tools/mkresults.py <full-matrix-dir> <own-check-matrix-dir> <commit> [<own-check-after-strengthening-dir>]
 
 <full-matrix-dir>: tools/seedtest.py outputs (one <change>.json each) of runs against every check;
 <own-check-matrix-dir>: outputs of runs against the change's own property's check only.
@@ -12,6 +12,7 @@ import os
 import sys
 
 full_dir, own_dir, commit = sys.argv[1], sys.argv[2], sys.argv[3]
+after_dir = sys.argv[4] if len(sys.argv) > 4 else None
 root = os.path.join(os.path.dirname(os.path.abspath(__file__)), "..")
 rows = []
 stats = {"n": 0, "caught": 0, "own": 0, "unconfirmed": 0}
@@ -44,6 +45,12 @@ for d in sorted(glob.glob(os.path.join(root, "seeded", "C*-r*"))):
         except Exception:  # noqa: BLE001
             pass
     note = meta.get("note") or ""
+    own_txt = {True: "yes", False: "no", None: "?"}[own]
+    f = os.path.join(after_dir, name + ".json") if after_dir else None
+    if f and os.path.exists(f) and not own:
+        r = json.load(open(f))
+        if own_id in [c["check"] for c in r.get("caught_by", [])]:
+            own, own_txt = True, "yes (after strengthening)"
     if demo and demo != "0/1":
         note = (note + "; " if note else "") + f"demonstration now exits {demo} (without/with the change) on the current tree"
     stats["n"] += 1
@@ -52,7 +59,7 @@ for d in sorted(glob.glob(os.path.join(root, "seeded", "C*-r*"))):
     stats["own"] += bool(own)
     rows.append((name, ", ".join(os.path.basename(x) for x in meta.get("files", [])), meta["summary"][:140].replace("|", "/").replace("\n", " "),
                  ",".join(first) if first is not None else "-", ",".join(full) if full is not None else "(own check only)",
-                 {True: "yes", False: "no", None: "?"}[own], tests.split(" in ")[0], note.replace("|", "/")))
+                 own_txt, tests.split(" in ")[0], note.replace("|", "/")))
 
 with open(os.path.join(root, "seeded", "RESULTS.md"), "w") as out:
     out.write("# Seeded changes vs. registered quick checks\n\n")
